@@ -12,6 +12,7 @@ PROP = "C09"
 DRIVERS = ["drv_validators"]
 LEAN_TARGETS = ["Pyrtma.Props.C09"]
 LEVEL = "proof"
+ISOLATE = True          # the real code runs in a forked child (check: `run_isolated`): a segfault still ends in a verdict
 MATCHERS: Dict[str, Any] = {}
 TRUSTED = [
     "Lean 4.33.0 kernel; axioms propext / Classical.choice / Quot.sound only (audited by #print axioms)",
@@ -229,6 +230,8 @@ def gen_cases(seed: int, deep: bool) -> List[Dict[str, Any]]:
             for s in ["", "a", "a" * (n - 1), "a" * n, "a" * (n + 1), "é"]:
                 add(t, ("whole",), ("S", ("s", [ord(c) for c in s])), en=False, tag="G")
             add(t, ("whole",), ("S", ("i", 1)), en=False, tag="G")
+            for s in VC.char_array_pool(n):      # ctypes char-array instances: refused by ctypes / by `value.encode`
+                add(t, ("whole",), ("S", s), en=False, tag="G")
     for t in arrs:
         _, cls, vk, n = t["fty"]
         for _ in range(6 if deep else 3):
@@ -461,7 +464,13 @@ def _feed_progs(res: C.Result, deep: bool, extra=()):
     tot = {"assign": 0, "outside": 0, "raised": 0, "via_view": 0, "ended_by_exception": 0, "max_depth": 0}
     for i, prog in enumerate(progs):
         cid = f"p{i}"
-        blk, info = VC.run_prog(cid, prog)
+        C.crumb({"prog": _pack(prog)})
+        try:
+            blk, info = VC.run_prog(cid, prog)
+        except Exception as e:  # noqa: BLE001
+            _trouble(res, "corr:M4/program", f"the program could not be run on this tree ({type(e).__name__}: {e})",
+                     {"prog": _pack(prog), "protocol": []})
+            continue
         lines += blk
         meta[cid] = (prog, blk)
         for k in ("assign", "outside", "raised", "via_view"):
@@ -482,8 +491,16 @@ def _feed_progs(res: C.Result, deep: bool, extra=()):
         for v in r["props"].get(PROP, []):
             if v.startswith("fail"):
                 res.failures.append(C.Failure(clause=v[5:].split(" ")[0], case=rc, detail=v[5:]))
-    if progs:
+    if progs and ("p%d" % (len(progs) // 3)) in meta:
         res.sample({"protocol": [l if len(l) < 300 else l[:300] + "..." for l in meta["p%d" % (len(progs) // 3)][1]]})
+
+
+def _trouble(res: C.Result, name: str, what: str, case: Dict[str, Any]):
+    """the code under test raised where the unchanged code never does (reading a field, creating a message, resolving a
+    nested struct): a correspondence difference with the case as replay - never a crash of the harness"""
+    n = res.extra["harness_trouble"] = res.extra.get("harness_trouble", 0) + 1
+    if n <= 20:
+        res.corr_diffs.append({"name": name, "diff": what[:400], "case": case})
 
 
 def _pack(case: Dict[str, Any]) -> Dict[str, Any]:
@@ -496,10 +513,15 @@ def _feed(res: C.Result, cases: List[Dict[str, Any]], start: int):
     meta: Dict[str, Any] = {}
     for i, case in enumerate(cases):
         cid = f"c{start + i}"
+        C.crumb({"case": _pack(case)})
         try:
             blk, info = VC.run_case(cid, case)
         except KeyError:
             continue  # no donor for this array shape
+        except Exception as e:  # noqa: BLE001
+            _trouble(res, "corr:M4/setField", f"the case could not be set up on this tree ({type(e).__name__}: {e})",
+                     {"case": _pack(case), "protocol": []})
+            continue
         lines += blk
         meta[cid] = (case, blk, info)
     out = C.parse_driver(C.run_driver("validators", lines))
@@ -550,9 +572,19 @@ def _feed_ctx(res: C.Result, deep: bool, extra=()):
     meta = {}
     for i, evs in enumerate(hs):
         cid = f"x{i}"
-        blk = VC.run_ctx(cid, evs)
+        info: Dict[str, Any] = {}
+        C.crumb({"ctx": evs})
+        try:
+            blk = VC.run_ctx(cid, evs, info)
+        except Exception as e:  # noqa: BLE001
+            _trouble(res, "corr:M4/disable_message_validation",
+                     f"the history could not be run on this tree ({type(e).__name__}: {e})", {"ctx": evs, "protocol": []})
+            continue
         lines += blk
         meta[cid] = (evs, blk)
+        for t in info.get("manager_raised", [])[:1]:
+            # the model's context manager never raises by itself
+            res.corr_diffs.append({"name": "corr:M4/disable_message_validation", "diff": t, "case": {"ctx": evs, "protocol": blk}})
     out = C.parse_driver(C.run_driver("validators", lines))
     res.extra["ctx_histories"] = len(hs)
     for cid, (evs, blk) in meta.items():
@@ -567,7 +599,7 @@ def _feed_ctx(res: C.Result, deep: bool, extra=()):
         for v in r["props"].get(PROP, []):
             if v.startswith("fail"):
                 res.failures.append(C.Failure(clause=v[5:], case=rc, detail=f"{v[5:]}: events {evs} flags {blk[2]}"))
-    if hs:
+    if hs and ("x%d" % (len(hs) // 2)) in meta:
         res.sample({"protocol": meta["x%d" % (len(hs) // 2)][1]})
 
 
@@ -588,6 +620,12 @@ def _corpus():
 
 
 def run(res: C.Result, deep: bool):
+    try:
+        VC.world().load_core()
+    except Exception as e:  # noqa: BLE001  (class creation runs the descriptors' __init__ / __set_name__ and the metaclass)
+        res.broken.append(f"tie:M4: the message classes the harness assigns to cannot be created on this tree "
+                          f"({type(e).__name__}: {e})"[:300])
+        return
     ccases, cctx, cprogs = _corpus()
     res.extra["corpus_cases"] = len(ccases) + len(cctx) + len(cprogs)
     cases = ccases + gen_cases(res.seed, deep)
@@ -621,11 +659,18 @@ def thread_probe() -> List[Dict[str, Any]]:
     from pyrtma.validators import disable_message_validation
     inside, release = threading.Event(), threading.Event()
     bad: List[Dict[str, Any]] = []
+    trouble: List[str] = []
+    thread_probe.trouble = trouble
 
     def holder():
-        with disable_message_validation():
+        try:
+            with disable_message_validation():
+                inside.set()
+                release.wait(10)
+        except Exception as e:  # noqa: BLE001  the context manager itself raised: an observation (reported as a
+            # correspondence difference by `_threads`), the probe goes on without a block held by the other thread
+            trouble.append(f"disable_message_validation raised {type(e).__name__} in the helper thread")
             inside.set()
-            release.wait(10)
 
     def attempts(who):
         m = cd.MDF_CONNECT_V2()
@@ -633,10 +678,13 @@ def thread_probe() -> List[Dict[str, Any]]:
                              ("logger_status", "one"), ("pid", 1.5)):
             try:
                 setattr(m, field, value)
-                bad.append({"thread": who, "field": f"MDF_CONNECT_V2.{field}", "value": repr(value)[:20],
-                            "stored": repr(getattr(m, field))[:20]})
             except Exception:  # noqa: BLE001  refused: what the property demands
-                pass
+                continue
+            try:
+                stored = repr(getattr(m, field))[:20]
+            except Exception as e:  # noqa: BLE001
+                stored = f"<reading it raises {type(e).__name__}>"
+            bad.append({"thread": who, "field": f"MDF_CONNECT_V2.{field}", "value": repr(value)[:20], "stored": stored})
     t = threading.Thread(target=holder, daemon=True)
     t.start()
     if not inside.wait(10):
@@ -656,6 +704,8 @@ def _threads(res: C.Result):
     bad = thread_probe()
     res.extra["thread_probe_assignments"] = 18
     res.evaluations += 18
+    for t in getattr(thread_probe, "trouble", [])[:1]:
+        res.corr_diffs.append({"name": "corr:M4/disable_message_validation", "diff": t, "case": {"thread_probe": {}}})
     for b in bad[:3]:
         res.failures.append(C.Failure(
             clause="validation_in_force_outside_disable_blocks: accepted while only another thread was inside a block",
